@@ -131,6 +131,10 @@ def gen_trait(k):
                 # generic methods with elided reference arguments are left out: the macro accepts them but its
                 # output does not compile (Params<T> lacks the '__proxy_params lifetime) - see DESIGN "observations"
                 spec = dict(R.choice([a for a in ARGS if not a.get("life")]))
+            elif an in HYGIENE and R.random() < 0.5:
+                # a name the generated code may use for a local of its own, with the type such a local would have
+                # (a string slice): a shadowed argument then still compiles and only the value on the wire tells
+                spec = dict(ARGS[4])
             else:
                 spec = dict(R.choice(ARGS))
             spec["name"] = an
